@@ -16,6 +16,7 @@ from dst.storage.simfile import Budget, IoSeam, ReadBudgetExceeded
 from dst.props.C01 import DEFAULT_KEYS, find_all, gen_settings
 
 ID = "C17"
+RUN_WALL_S = 90    # per-run wall-clock alarm for loops that perform no I/O (see core.guarded)
 LEVEL = "exploration"
 RUNS = {"quick": 1500, "thorough": 30000}
 CHUNK = {"quick": 16, "thorough": 64}
